@@ -18,6 +18,28 @@ CURVED = ["quad-float", "mixdeg-float", "cubic-float"]
 EXTRA = ["poly-mixed", "poly-frac-rot", "quad-frac"]
 
 
+# representative degenerate (class I / P) rows of the three-atom universes that are recorded
+# as known findings (KNOWN_FINDINGS.json, F-C01-nontransversal-U3); they are always run
+REPR_IP = [
+    ("U3chain", "and", 3, 10), ("U3chain", "and", 10, 22), ("U3chain", "or", 7, 36), ("U3chain", "or", 10, 13),
+    ("U3chain", "sub", 11, 21), ("U3chain", "sub", 15, 44), ("U3chain", "xor", 7, 54), ("U3chain", "xor", 10, 3),
+    ("U3hole", "and", 9, 7), ("U3hole", "and", 10, 19), ("U3hole", "or", 9, 33), ("U3hole", "or", 26, 50),
+    ("U3hole", "sub", 3, 21), ("U3hole", "sub", 12, 20), ("U3hole", "xor", 12, 20), ("U3hole", "xor", 13, 20),
+]
+
+
+def repr_jobs(reals, opts=None):
+    jobs = []
+    for un in sorted({r[0] for r in REPR_IP}):
+        want = {(op, a, b) for u_, op, a, b in REPR_IP if u_ == un}
+        u = Universe(un)
+        for row in models.pair_rows(un):
+            if (row["op"], row["a"], row["b"]) in want:
+                for rn in reals:
+                    jobs.append((un, rn, replay.pair_case(u, row), opts or {}))
+    return jobs
+
+
 def pair_jobs(unames, reals, rng, *, per_universe=None, classes=("T", "I", "P"), ops=None, opts=None, rowfilter=None):
     jobs = []
     for un in unames:
@@ -125,12 +147,13 @@ def check_C01(tier, rng, rep):
         jobs += pair_jobs(U2, POLY + CURVED + EXTRA, rng, opts=o)
         jobs += pair_jobs(["U3hole", "U3chain"], POLY + CURVED, rng, classes=("T",), opts=o)
         jobs += pair_jobs(["U3venn"], lambda k: [(POLY + CURVED + EXTRA)[k % 9]], rng, classes=("T",), opts=o)
+    jobs += repr_jobs(["poly-frac", "poly-float"], o)
     res = runner.pool_map(replay.run_case, jobs)
     rep.add_results("pairs", res, nontrivial=nontrivial_pair)
     # (c) nested expressions: simulated behaviours of the heap model
     sims, jobs = sim_jobs([rng.choice(U2[2:])] if quick else U2[2:] + ["U3hole"], ["poly-frac", "poly-float"] if quick else POLY + CURVED,
                           num=40 if quick else 200, depth=9, seed=runner.seed() + 11, opts=o,
-                          acts=("make", "bin", "inv"), regs=3, maxobj=6)
+                          acts=("make", "bin", "inv"), regs=3, maxobj=6, constraint="SimDomain")
     for un, r in sims:
         rep.add_tlc("ShapeSys-sim/" + un, r)
     res = runner.pool_map(replay.run_case, jobs)
@@ -308,6 +331,8 @@ def check_C06(tier, rng, rep):
                 jobs.append((un, rn, replay.pair_case(Universe(un), row), o))
     res = runner.pool_map(replay.run_case, jobs)
     rep.add_results("pairs", res, nontrivial=nontrivial_pair)
+    trace_engine(rep, [rng.choice(U2[2:]), rng.choice(U3)] if quick else U2[2:] + U3, ["poly-int", "quad-float"] if quick else POLY + CURVED[:2],
+                 ntr=12 if quick else 60, nsteps=10, acts_for_prop={"Bin", "Inv", "MakeAtom", "MakeRegion"}, gens=(), maxframe=0, seed_offset=600)
     return rep.finish(tier, rule="one-step operator behaviours on T-class pairs plus the singleton-law rows (S|~S, S&~S, S-S, S^S, S^~S for every pinch-free S): kind, number of curves, corner cycles, vertex cycles (segmentation), junction identity, zero-length pieces, singleton identity", exhaustive=not quick)
 
 
@@ -323,7 +348,7 @@ def check_C08(tier, rng, rep):
     acts = ("make", "mkreg", "bin", "inv", "copy", "invert", "transform", "alias", "query", "drop")
     sims, jobs = sim_jobs([rng.choice(U2[2:]), rng.choice(U3)] if quick else U2 + U3, ["poly-frac", "poly-float", "quad-float"] if quick else POLY + CURVED,
                           num=36 if quick else 150, depth=11, seed=runner.seed() + 8, opts={"check_c10": False, "deep_all": True},
-                          acts=acts, gens=GEN_SMALL, maxframe=2, regs=3, maxobj=6, constraint="NoTrivialStart")
+                          acts=acts, gens=GEN_SMALL, maxframe=2, regs=3, maxobj=6, constraint="SimDomain")
     for un, r in sims:
         rep.add_tlc("ShapeSys-sim/" + un, r)
     res = runner.pool_map(replay.run_case, jobs)
@@ -332,6 +357,8 @@ def check_C08(tier, rng, rep):
     jobs = pair_jobs(U2 if quick else U2 + U3, lambda k: [(POLY + CURVED[:2])[k % 5]], rng, per_universe=40 if quick else None, classes=("T",), opts={"check_c10": False})
     res = runner.pool_map(replay.run_case, jobs)
     rep.add_results("pairs", res, nontrivial=nontrivial_pair)
+    trace_engine(rep, [rng.choice(U2[2:]), rng.choice(U3)] if quick else U2[2:] + U3, ["poly-frac", "poly-float"] if quick else POLY + CURVED[:2],
+                 ntr=16 if quick else 60, nsteps=12, acts_for_prop=None, seed_offset=800)
     return rep.finish(tier, rule="TLC -simulate behaviours (make/mkreg/bin/inv/copy/invert/transform/alias/query/drop, depth 11) replayed with bit-exact snapshots of every bystander object, identity structure (aliasing, singletons) and id-disjointness of distinct objects after every step; plus operands of the one-step operator corpus", exhaustive=False)
 
 
@@ -345,13 +372,84 @@ def check_C09(tier, rng, rep):
     acts = ("make", "mkreg", "transform", "badtransform", "copy", "inv", "query", "alias")
     sims, jobs = sim_jobs([rng.choice(U2), rng.choice(U3)] if quick else U2 + U3, ["poly-frac", "poly-float", "quad-float", "poly-int"] if quick else POLY + CURVED + EXTRA,
                           num=30 if quick else 120, depth=10, seed=runner.seed() + 9, opts={"check_c10": False, "deep_all": True},
-                          acts=acts, gens=GEN_ALL, maxframe=3, regs=2, maxobj=5, constraint="NoTrivialStart")
+                          acts=acts, gens=GEN_ALL, maxframe=3, regs=2, maxobj=5, constraint="SimDomain")
     for un, r in sims:
         rep.add_tlc("ShapeSys-sim/" + un, r)
     res = runner.pool_map(replay.run_case, jobs)
     rep.add_results("sim", res)
+    trace_engine(rep, [rng.choice(U2), rng.choice(U3)] if quick else U2 + U3, ["poly-frac", "poly-float"] if quick else POLY + CURVED[:2],
+                 ntr=12 if quick else 60, nsteps=10, acts_for_prop={"Transform", "InvertInPlace"}, gens=GEN_ALL, maxframe=3, seed_offset=900)
     rep.assumptions.append("generators: move(3,-2), move(1/2,7), scale(2,2), scale(3,1/2), rotate(90 deg), rotate(atan2(3,4)) and inverses; exact comparison (and Fraction types) for move/scale on rational polygons, 1e-9 after rotations")
     return rep.finish(tier, rule="TLC -simulate behaviours with Transform/BadTransform actions (frame words of length <= 3 over 12 generators) on objects of every kind; after each step witnesses are mapped through the exact affine map of the frame word, moments by exact substitution; a word reducing to the empty word must give a shape == the original", exhaustive=False)
+
+
+
+def _ser_case(case):
+    return {"label": case.get("label"), "universe": case.get("universe"),
+            "steps": [[n, world_js(a), {"heap": [dict(h, frame=list(h["frame"]), splits=[list(p) for p in sorted(h["splits"])]) for h in st["heap"]],
+                                          "regs": list(st["regs"]), "obs": st["obs"]}] for n, a, st in case["steps"]]}
+
+
+def world_js(v):
+    from .world import _js
+    return _js(v)
+
+
+def rerun_observations(jobs, hashseed, warm):
+    """run replay jobs in a fresh interpreter with another PYTHONHASHSEED -> list of obs logs"""
+    import subprocess
+    import tempfile
+    d = os.path.join(tlc.BUILD, "obsrun")
+    os.makedirs(d, exist_ok=True)
+    jp = os.path.join(d, "jobs_%s_%s.json" % (hashseed, warm))
+    op = os.path.join(d, "out_%s_%s.json" % (hashseed, warm))
+    json.dump([(u, r, _ser_case(c), o) for u, r, c, o in jobs], open(jp, "w"))
+    env = dict(os.environ, PYTHONHASHSEED=str(hashseed))
+    p = subprocess.run([sys.executable, "-m", "vshape.obsrun", jp, op, "warm" if warm else "cold"], env=env, cwd=os.path.join(tlc.VERIF, "harness"),
+                       stdout=subprocess.PIPE, stderr=subprocess.STDOUT, text=True, timeout=3000)
+    if p.returncode != 0:
+        raise tlc.MachineryError("obsrun failed: " + p.stdout[-2000:])
+    return json.load(open(op))
+
+
+def check_C10(tier, rng, rep):
+    """answers depend only on the current geometry, not on earlier calls"""
+    quick = tier == "quick"
+    un = rng.choice(["U2corner", "U2bite", "U2cross"]) if quick else "U2cross"
+    rep.add_tlc("ShapeSys/%s/r2" % un, models.shapesys_check(un, regs=2, maxobj=4, gens=("s1", "S1"), maxframe=1,
+                                                              props=["OperandsUnchanged"], invs=["TypeOK", "Canonical"],
+                                                              acts=("make", "bin", "query", "transform", "copy")))
+    acts = ("make", "mkreg", "bin", "inv", "copy", "invert", "transform", "query", "alias")
+    o = {"check_c10": True, "record_obs": True}
+    sims, jobs = sim_jobs([rng.choice(U2[2:]), rng.choice(U3)] if quick else U2 + U3, ["poly-frac", "poly-float", "quad-float"] if quick else POLY + CURVED,
+                          num=28 if quick else 120, depth=12, seed=runner.seed() + 10, opts=o,
+                          acts=acts, gens=GEN_SMALL, maxframe=2, regs=3, maxobj=6, constraint="SimDomain")
+    for un, r in sims:
+        rep.add_tlc("ShapeSys-sim/" + un, r)
+    res = runner.pool_map(replay.run_case, jobs)
+    rep.add_results("sim", res)
+    # the same behaviours in fresh interpreters: other hash seeds, cold and pre-warmed
+    # module-level memo tables; observation logs must be identical
+    sub = runner.sample(list(range(len(jobs))), 24 if quick else 120, rng)
+    base = {res[i]["case"] + "/" + jobs[i][1]: res[i] for i in sub}
+    chunks = [(hs, warm) for hs, warm in ((1, False), (2, True))]
+    import concurrent.futures as cf
+    with cf.ThreadPoolExecutor(len(chunks)) as ex:
+        futs = {ex.submit(rerun_observations, [jobs[i] for i in sub], hs, warm): (hs, warm) for hs, warm in chunks}
+        for fu in futs:
+            hs, warm = futs[fu]
+            out = fu.result()
+            for i, o2 in zip(sub, out):
+                r0 = res[i]
+                if o2.get("machinery"):
+                    rep.machinery.append(o2["machinery"])
+                    continue
+                rep.cov["evaluations"] += 1
+                if json.dumps(o2["obs"], sort_keys=True, default=str) != json.dumps(r0.get("obs"), sort_keys=True, default=str):
+                    rep.finding_or_violation("rerun/%s/%s/%s/hashseed%d-%s" % (r0["universe"], r0["real"], r0["case"], hs, "warm" if warm else "cold"),
+                                             {"what": "observation log differs in a fresh process", "steps": r0.get("steps"), "first": r0.get("obs"), "second": o2["obs"]})
+    rep.cov["reruns"] = {"behaviours": len(sub), "configurations": ["PYTHONHASHSEED=1 cold caches", "PYTHONHASHSEED=2 pre-warmed memo tables"]}
+    return rep.finish(tier, rule="TLC -simulate behaviours (depth 12, all action families) replayed; after every step each involved object answers the query battery (area, kind, signed curve lengths, box, first moment, point membership) three times: live, on a deep copy, live again; a sample of behaviours is re-run in fresh interpreters with other hash seeds and warm/cold memo tables and the observation logs compared", exhaustive=False)
 
 
 def check_C19(tier, rng, rep):
@@ -372,7 +470,7 @@ def check_C19(tier, rng, rep):
 
 
 CHECKS = {"C01": check_C01, "C02": check_C02, "C03": check_C03, "C04": check_C04, "C05": check_C05, "C06": check_C06,
-          "C07": check_C07, "C08": check_C08, "C09": check_C09, "C19": check_C19}
+          "C07": check_C07, "C08": check_C08, "C09": check_C09, "C10": check_C10, "C19": check_C19}
 
 
 
